@@ -38,7 +38,6 @@ Proof. intros (A & B) H. unfold refn_ok in *. rewrite A, B. exact H. Qed.
 Definition op_ok2 (st : state) (o : op) : Prop :=
   match o with
   | OpSetFormula c b _ _ =>
-      body_ok b = true /\
       forall cl r sp v, lookup_cell (s_cells st) c = Some cl -> refn_body b r = true ->
                         lookup_ref (s_refs st) r = Some (Some sp, v) -> cl_space cl = sp
   | _ => True
@@ -101,8 +100,8 @@ Proof.
     simpl in H. inversion H; subst. eapply refn_ok_same; [|exact Hrn].
     apply Shrinks_same_defs, clear_all_values_Shrinks.
   - (* set formula *)
-    destruct Hop as (Hb & Hvis).
-    destruct (step_quiet _ _ _ _ _ H Hx Q Hre Hb) as [R|Q']; [now left|right]. split; [exact Q'|].
+    pose proof Hop as Hvis.
+    destruct (step_quiet _ _ _ _ _ H Hx Q Hre I) as [R|Q']; [now left|right]. split; [exact Q'|].
     simpl in H. unfold set_formula in H.
     destruct (lookup_cell (s_cells st) c) as [cl|] eqn:El; inversion H; subst; [|exact Hrn].
     pose proof (clear_obj_Shrinks st c) as S.
@@ -157,7 +156,7 @@ Proof.
 Qed.
 
 Theorem history_correct2 fuel cells refs maxd ops xs st :
-  defs_ok cells -> refn_ok (init cells refs maxd) -> ops_ok2 fuel (init cells refs maxd) ops ->
+  refn_ok (init cells refs maxd) -> ops_ok2 fuel (init cells refs maxd) ops ->
   run fuel (init cells refs maxd) ops = (xs, st) -> no_fuel_out xs -> s_reent st = false ->
   Quiet st /\
   (forall i v, lookup_data (s_data st) i = Some v ->
@@ -165,8 +164,8 @@ Theorem history_correct2 fuel cells refs maxd ops xs st :
   (forall i r st', eval_top fuel st i = (r, st') -> r <> OutOfFuel ->
      agrees r (fun g => spec_eval g st i)).
 Proof.
-  intros Hok Hrn Hops Hrun Hnf Hre.
-  destruct (run_quiet2 _ _ _ _ _ Hrun Hnf (Quiet_init cells refs maxd Hok) Hrn eq_refl Hops) as [R|(Q & _)]; [congruence|].
+  intros Hrn Hops Hrun Hnf Hre.
+  destruct (run_quiet2 _ _ _ _ _ Hrun Hnf (Quiet_init cells refs maxd) Hrn eq_refl Hops) as [R|(Q & _)]; [congruence|].
   split; [exact Q|]. destruct Q as ((HI & _) & _). split.
   - exact (proj2 HI).
   - intros i r st' H Hr. now destruct (eval_top_sim _ _ _ _ _ H Hr HI) as (_ & _ & A).
